@@ -59,6 +59,12 @@ TW('C17', 'twin-C17-ref2', 'C17-ref2')
 TW('C17', 'twin-C17-ref3', 'C17-ref3')
 TW('C17', 'twin-C17-ref4', 'C17-ref4')
 
+# ---- C01.1: key list built with insert() and hashed in one loop (interp: list.insert)
+_REVOC = "            if self.type == SignatureType.SubkeyRevocation:\n                # hash the primary key first if this is a Subkey Revocation signature\n                _s = subject.parent.hashdata\n                _data += b'\\x99' + self.int_to_bytes(len(_s), 2) + _s\n\n            _s = subject.hashdata\n            _data += b'\\x99' + self.int_to_bytes(len(_s), 2) + _s\n"
+T('C01', 'twin-revocation-key-list', PGP, _REVOC,
+  "            hashed_keys = [subject]\n            if self.type == SignatureType.SubkeyRevocation:\n                hashed_keys.insert(0, subject.parent)\n\n            for key in hashed_keys:\n                _s = key.hashdata\n                _data += b'\\x99' + self.int_to_bytes(len(_s), 2) + _s\n")
+M('C01', 'revocation-key-list-order', PGP, _REVOC,
+  "            hashed_keys = [subject]\n            if self.type == SignatureType.SubkeyRevocation:\n                hashed_keys.insert(1, subject.parent)\n\n            for key in hashed_keys:\n                _s = key.hashdata\n                _data += b'\\x99' + self.int_to_bytes(len(_s), 2) + _s\n", 'C01.1')
 # ---- C01.2 (loop pair by binding, records by position/keyword, NotImplemented decided on path facts)
 T('C01', 'twin-extend-genexp', PGP, "                sspairs += [ (sig, subject) for sig in _filter_sigs(subject.__sig__) ]",
   "                sspairs.extend((sig, subject) for sig in _filter_sigs(subject.__sig__))")
@@ -137,6 +143,8 @@ M('C17', 'bool-loop-first-decides', TY, _BOOL,
   "        for sigsub in self._subjects:\n            if sigsub.issues is SecurityIssues.OK or not sigsub.issues.causes_signature_verify_to_fail:\n                return True\n        return False", 'C17.2')
 M('C17', 'bool-ignores-predicate', TY, _BOOL,
   "        for sigsub in self._subjects:\n            if sigsub.issues is None:\n                return False\n        return True", 'C17.2')
+M('C17', 'bad-skips-first-record', TY, _BAD,
+  "        for sigsub in self._subjects[1:]:\n            if sigsub.issues and sigsub.issues.causes_signature_verify_to_fail:\n                yield sigsub", 'C17.2')
 M('C17', 'and-replaces', TY, "        self._subjects += other._subjects\n        return self", "        self._subjects = other._subjects\n        return self", 'C17.2')
 M('C17', 'and-returns-other', TY, "        self._subjects += other._subjects\n        return self", "        self._subjects += other._subjects\n        return other", 'C17.2')
 M('C17', 'and-extends-self', TY, "        self._subjects += other._subjects\n        return self", "        self._subjects.extend(self._subjects)\n        return self", 'C17.2')
@@ -173,6 +181,31 @@ M('C17', 'mask-all-hash-bits', PGP, "                    signature_issues &= ~Se
   "                    signature_issues &= ~(SecurityIssues.HashFunctionNotCollisionResistant | SecurityIssues.NoSelfSignature)", 'C17.5')
 M('C17', 'issues-only-soundness', PGP, "                issues = signature_issues | subkey_issues", "                issues = subkey_issues | subkey_issues", 'C17.5')
 M('C17', 'issues-xor', PGP, "                issues = signature_issues | subkey_issues", "                issues = signature_issues ^ subkey_issues", 'C17')
+# ---- further spellings of the same functions (generalisation guards)
+T('C17', 'twin-pred-len-list', CO, _PRED,
+  "        hits = [f for f in (SecurityIssues.WrongSig, SecurityIssues.Expired, SecurityIssues.Disabled, SecurityIssues.Invalid, SecurityIssues.NoSelfSignature) if f & self]\n        return len(hits) > 0")
+T('C17', 'twin-pred-mask-loop', CO, _PRED,
+  "        mask = 0\n        for f in (SecurityIssues.WrongSig, SecurityIssues.Expired, SecurityIssues.Disabled, SecurityIssues.Invalid, SecurityIssues.NoSelfSignature):\n            mask |= f\n        return bool(self & mask)")
+T('C17', 'twin-pred-value-ne', CO, _PRED,
+  "        failing = SecurityIssues.WrongSig | SecurityIssues.Expired | SecurityIssues.Disabled | SecurityIssues.Invalid | SecurityIssues.NoSelfSignature\n        return (self & failing).value != 0")
+T('C17', 'twin-good-returns-iter', TY, _GOOD,
+  "        return iter([entry for entry in self._subjects if not (entry.issues and entry.issues.causes_signature_verify_to_fail)])")
+T('C17', 'twin-default-ifexp', TY, "        if issues is None:\n            from .constants import SecurityIssues\n            issues = SecurityIssues(0xFF)\n" + _REC,
+  "        from .constants import SecurityIssues\n        verdict = SecurityIssues(0xFF) if issues is None else issues\n        self._subjects.append(self._sigsubj(verdict, by, signature, subject))")
+T('C17', 'twin-fail-flag-hoisted', PGP, "                if issues and issues.causes_signature_verify_to_fail:\n                    sigv.add_sigsubj(sig, self, subj, issues)",
+  "                disqualified = bool(issues) and issues.causes_signature_verify_to_fail\n                if disqualified:\n                    sigv.add_sigsubj(sig, self, subj, issues)")
+T('C01', 'twin-key-alias', PGP, "                    verified = self._key.verify(sig.hashdata(subj), sig.__sig__, getattr(hashes, sig.hash_algorithm.name)())",
+  "                    keypkt = self._key\n                    verified = keypkt.verify(sig.hashdata(subj), sig.__sig__, getattr(hashes, sig.hash_algorithm.name)())")
+T('C01', 'twin-subkey-alias', PGP, "                sigv &= self.subkeys[sig.signer].verify(subj, sig)",
+  "                signing_subkey = self.subkeys[sig.signer]\n                sigv &= signing_subkey.verify(subj, sig)")
+_EXPIRED = "        expires = self.expires_at\n        if expires is not None:\n            return expires <= datetime.now(timezone.utc)\n\n        return False"
+T('C17', 'twin-expired-now-first', PGP, "            return expires <= datetime.now(timezone.utc)", "            now = datetime.now(timezone.utc)\n            return now >= expires")
+T('C17', 'twin-expired-guard-first', PGP, _EXPIRED,
+  "        deadline = self.expires_at\n        if deadline is None:\n            return False\n\n        return not deadline > datetime.now(timezone.utc)")
+M('C17', 'expired-inverted', PGP, "            return expires <= datetime.now(timezone.utc)", "            return expires >= datetime.now(timezone.utc)", 'C17.5')
+M('C17', 'expired-vs-created', PGP, "            return expires <= datetime.now(timezone.utc)", "            return expires <= self.created", 'C17.5')
+M('C17', 'expired-without-expiry', PGP, _EXPIRED,
+  "        expires = self.expires_at\n        if expires is None:\n            return self.created <= datetime.now(timezone.utc)\n\n        return expires <= datetime.now(timezone.utc)", 'C17.5')
 
 # =============================================================================================== C12
 M('C12', 'preload-i-plus-1', FL, "            _h.update(b'\\x00' * i)", "            _h.update(b'\\x00' * (i + 1))", 'C12.1')
